@@ -41,9 +41,10 @@ var focusSets = map[string]map[string]bool{
 	"num":    set("float32", "float64", "floats32", "floats64", "int", "int64", "ints", "uint64", "uints64", "uint8", "ints8", "ptr"),
 	"net":    set("ip", "ipnet", "mac", "hex", "bytes", "rawcbor", "rawjson"),
 	"iface":  set("iface", "any", "type", "stringer", "stringers", "nil", "ptr", "anerr"),
+	"goctx":  set("ctx", "getctx", "str", "int"),
 }
 
-var focusNames = []string{"errors", "time", "num", "net", "iface"}
+var focusNames = []string{"errors", "time", "num", "net", "iface", "goctx"}
 
 var containers = set("dict", "arr", "arrm", "obj", "embed", "fieldsmap", "fieldsslice", "func")
 
@@ -464,6 +465,11 @@ func (g *G) Scalar(typ string, depth int, label string) Val {
 		v.S = g.JSONText(label + ".j")
 	case "rawcbor":
 		v.S = rapid.SliceOfN(rapid.Byte(), 0, 20).Draw(t, label+".c")
+		if rapid.IntRange(0, 3).Draw(t, label+".clong") == 0 {
+			// payload lengths on both sides of the one-byte / two-byte length heads
+			n := rapid.SampledFrom([]int{23, 24, 25, 30, 255, 256, 300}).Draw(t, label+".clen")
+			v.S = rapid.SliceOfN(rapid.Byte(), n, n).Draw(t, label+".cl")
+		}
 	case "bool":
 		v.B = rapid.Bool().Draw(t, label+".b")
 	case "int":
@@ -505,6 +511,9 @@ func (g *G) Scalar(typ string, depth int, label string) Val {
 	case "timestamp", "caller", "stack", "reset":
 	case "ctx":
 		v.S = []byte("ctx-" + rapid.StringMatching(`[a-z]{3}`).Draw(t, label+".cm"))
+		if rapid.IntRange(0, 4).Draw(t, label+".cnil") == 0 {
+			v.S, v.Nil = nil, true
+		}
 	case "getctx":
 	case "err", "anerr":
 		g.errInto(&v, label)
@@ -732,6 +741,9 @@ func (g *G) Hook(id int, label string) HookSpec {
 	t := g.t
 	h := HookSpec{ID: id}
 	h.Kind = rapid.SampledFrom([]string{"add", "add", "add", "getctx", "noop", "discard"}).Draw(t, label+".hk")
+	if g.focus == "goctx" && rapid.Bool().Draw(t, label+".hkctx") {
+		h.Kind = "getctx" // programs about the Go context: hooks that read it
+	}
 	h.Wrap = rapid.SampledFrom([]string{"", "", "func", "level", "levelsome"}).Draw(t, label+".hw")
 	if g.set.GlobalLow > 0 && rapid.Bool().Draw(t, label+".hwlow") {
 		h.Wrap = "level" // custom verbose levels are where a LevelHook must stay silent
@@ -887,6 +899,10 @@ func (g *G) Steps(label string, maxSteps int) []Step {
 			}
 		case "viactx":
 			st.N = uint32(rapid.IntRange(0, 1).Draw(t, label+".ctxhas"))
+		case "output":
+			if g.cfg.Tree && rapid.IntRange(0, 3).Draw(t, label+".mute") == 0 {
+				st.N = uint32(rapid.IntRange(1, 2).Draw(t, label+".mutekind")) // 1 io.Discard, 2 nil
+			}
 		case "sample":
 			st.Sampler = rapid.SampledFrom([]string{"all", "all", "all", "basic"}).Draw(t, label+".smp")
 			st.N = uint32(rapid.IntRange(1, 2).Draw(t, label+".smpn"))
